@@ -301,7 +301,13 @@ func workerMain(t *testing.T, def *PropDef, out string) {
 			break
 		}
 		seed := mixSeed(base, worker, i)
-		p := def.Gen(NewRng(seed), tier, worker*100003+i)
+		// one quick plan in eight is generated with the thorough tier's sizes: some defects need histories longer
+		// than quick plans usually get (both genuine alarms of the thorough sweeps were of that kind)
+		genTier := tier
+		if tier == "quick" && seed%8 == 5 {
+			genTier = "thorough"
+		}
+		p := def.Gen(NewRng(seed), genTier, worker*100003+i)
 		p.Prop = def.ID
 		p.Seed = seed
 		if i == 0 {
